@@ -1,14 +1,14 @@
 SPECIFICATION Spec
 CONSTANTS
-  LoX <- TLoX
-  ExtX <- TExtX
+  LoX <- PLoX
+  ExtX = {1, 2, 3}
   LoY = {0}
-  ExtY = {1, 2}
+  ExtY = {1}
   LoZ = {0}
   ExtZ = {2}
-  Sizes = {1, 2, 3, 4}
+  Sizes = {1, 2}
   Regimes <- AllRegimes
-  MaxObj = 1
+  MaxObj = 2
   IdxRule = "clamp"
 INVARIANTS InRange Retrievable Neighbourhood Neighbourhood3 ContentOnce FlatInjective FlatInRange
 CHECK_DEADLOCK FALSE
